@@ -9,3 +9,13 @@ import SuxModel.Props.C02Adapt
 #print axioms Sux.RS.Adapt.adapt_select_correct
 #print axioms Sux.RS.Adapt.adapt_select_zero_correct
 #print axioms Sux.RS.Adapt.adapt_select_none_iff
+#print axioms Sux.RS.Adapt.adapt_build_inv
+#print axioms Sux.RS.Adapt.adapt_const_build_inv
+#print axioms Sux.RS.Adapt.adapt_with_inv_build_inv
+#print axioms Sux.RS.Adapt.adapt_with_span_build_inv
+#print axioms Sux.RS.Adapt.adaptConst_select_correct
+#print axioms Sux.RS.Adapt.adaptConst_select_zero_correct
+#print axioms Sux.RS.Adapt.adapt_with_inv_select_correct
+#print axioms Sux.RS.Adapt.adapt_with_inv_select_zero_correct
+#print axioms Sux.RS.Adapt.adapt_with_span_select_correct
+#print axioms Sux.RS.Adapt.adapt_with_span_select_zero_correct
